@@ -353,6 +353,12 @@ func (gb *gcpBalancer) newSubConn() {
 	gb.mu.Lock()
 	defer gb.mu.Unlock()
 
+	// The picker checked the pool size without holding this lock, so picks on
+	// other pickers may have grown the pool in the meantime.
+	if maxSize := gb.cfg.GetChannelPool().GetMaxSize(); maxSize != 0 && len(gb.scRefs) >= int(maxSize) {
+		return
+	}
+
 	// there are chances the newly created subconns are still connecting,
 	// we can wait on those new subconns.
 	for _, scState := range gb.scStates {
